@@ -337,11 +337,11 @@ def summarise(R, it):
     R.summarising = getattr(R, 'summarising', 0) + 1
     try:
         if B.is_set(coll):
-            h = R.fresh(coll.kind[1], '_e')
-            s.h = h.e
-            s.mem = z3.IsMember(h.e, coll.e)
+            hc = z3.Const(R.fresh_name('_e'), R.S.sort_of(coll.kind[1]))
+            s.h = hc
+            s.mem = z3.IsMember(hc, coll.e)
             s.index = False
-            elem = h
+            elem = R.wrap(hc, coll.kind[1])
         else:
             i = R.fresh('int', '_k')
             elem, n = elem_at(R, coll, i.e)
@@ -524,6 +524,8 @@ def comprehension(R, it, target):
         # iteration over a set: the result is a set (tuple abstracted as set)
         rk = ('set', vk)
         identity = z3.simplify(val == x) if val.sort() == x.sort() else z3.BoolVal(False)
+        if isinstance(node.elt, ast.Name) and isinstance(gen.target, ast.Name) and node.elt.id == gen.target.id:
+            identity = z3.BoolVal(True)      # [x for x in S if ...]: the element itself
         if z3.is_true(identity):
             res = z3.Lambda([x], z3.And(mem, conds))
             return ZV(res, rk)
